@@ -232,7 +232,11 @@ func (c *Ctx) c04Corr() error {
 	}
 	tags := []int{c04Tags["uint8"], c04Tags["int8"], c04Tags["uint32"], c04Tags["int32"], c04Tags["float64"], c04Tags["nil"], c04Tags["bool"], c04Tags["string"], 128, 160, 224}
 	for _, ka := range all {
-		for _, a := range boundary(ka, r, nrand) {
+		vals := boundary(ka, r, nrand)
+		if ka.tag == unt { // constants beyond every destination type (a constant shifted by a variable gets there): they wrap
+			vals = append(vals, 1<<31, 1<<31+1, -(1<<31)-1, 1<<32, 1<<32+5, -(1 << 32), 1<<40+3, -(1<<40)-3, 1<<52, 255<<24, 70000, -70000)
+		}
+		for _, a := range vals {
 			v := mk(ka.tag, a)
 			for _, t := range tags {
 				t := t
@@ -487,7 +491,18 @@ func (c *Ctx) c04Oracle() error {
 			fmt.Fprintf(&sb, "func to_%s(a %s) %s { return %s(a) }\n", k2.name, T, k2.name, k2.name)
 		}
 		fmt.Fprintf(&sb, "func to_f(a %s) float64 { return float64(a) }\n", T)
+		// a constant shifted by a variable takes the type the context gives it: the result wraps in that type
+		fmt.Fprintf(&sb, "func shd(n int) %s { var x %s = 1 << n; return x }\nfunc shr(n int) %s { return 5 << n }\nfunc sha(n int) %s { var x %s; x = 3 << n; return x }\n", T, T, T, T, T)
 		s := newScript(sb.String())
+		for n := int64(0); n < 63; n++ {
+			for _, f := range []struct {
+				fn string
+				k  int64
+			}{{"shd", 1}, {"shr", 5}, {"sha", 3}} {
+				want, _ := goBinK(T, "<<", f.k, n)
+				check("const-shift-var", fmt.Sprintf("%s: %s: %d << n, n = %d", T, f.fn, f.k, n), s.call(f.fn, mkArg("int32", n)), want+":"+T)
+			}
+		}
 		n := 6
 		if c.Thorough() {
 			n = 60
@@ -594,7 +609,17 @@ func (c *Ctx) c04Oracle() error {
 				fmt.Fprintf(&sk, "func res%d(p %s) %s { return %d }\nfunc rcall%d() %s { var z %s; r := res%d(z); return r }\n", pi, P, T, K, pi, T, P, pi)
 				fmt.Fprintf(&sk, "func resb%d(p %s, q %s) (%s, %s) { return %d, %d }\nfunc rbcall%d() %s { var z %s; a, b := resb%d(z, z); _ = a; return b }\n", pi, P, P, T, T, K, K, pi, T, P, pi)
 			}
+			// the zero value read at an absent key has the ELEMENT type, whatever the key type is
+			for pi, P := range others {
+				fmt.Fprintf(&sk, "func mab%d() %s { m := map[%s]%s{}; var z %s; x := m[z]; x += %d; return x }\nfunc mac%d() %s { m := map[%s]%s{}; var z %s; m[z] += %d; return m[z] }\nfunc mad%d() %s { m := make(map[%s]%s); var z %s; v, ok := m[z]; _ = ok; v += %d; return v }\n",
+					pi, T, P, T, P, K, pi, T, P, T, P, K, pi, T, P, T, P, K)
+			}
 			s := newScript(sk.String())
+			for pi, P := range others {
+				for _, fn := range []string{"mab", "mac", "mad"} {
+					check("absent-key-zero", fmt.Sprintf("%s: map[%s]%s{} read at an absent key, then += %d", fn, P, T, K), s.call(fmt.Sprintf("%s%d", fn, pi)), fmt.Sprintf("%d:%s", K, T))
+				}
+			}
 			for _, fn := range []string{"vcall", "vmcall"} {
 				check("variadic-store", fmt.Sprintf("%s: %d among the extra arguments of a ...%s parameter", fn, K, T), s.call(fn), fmt.Sprintf("%d:%s", K, T))
 			}
